@@ -32,12 +32,23 @@ def isAlphaR (r : Rune) : Bool := (97 ≤ r && r ≤ 122) || (65 ≤ r && r ≤ 
 def isAlphaNumR (r : Rune) : Bool := isAlphaR r || isDigitR r
 def isHexDigitR (r : Rune) : Bool := isDigitR r || (97 ≤ r && r ≤ 102) || (65 ≤ r && r ≤ 70)
 
-def keywordTable : List (String × TokType) :=
-  [("var", .VAR), ("def", .DEF), ("eval", .EVAL), ("print", .PRINT), ("bind", .BIND),
-   ("true", .TRUE), ("false", .FALSE), ("nil", .NIL), ("not", .NOT), ("and", .AND), ("or", .OR)]
+/-- `keywords`, each word as its ASCII bytes (kept as literal bytes so that the
+kernel can evaluate lookups). -/
+def keywordTable : List (Bytes × TokType) :=
+  [([118, 97, 114], .VAR) /- var -/,
+   ([100, 101, 102], .DEF) /- def -/,
+   ([101, 118, 97, 108], .EVAL) /- eval -/,
+   ([112, 114, 105, 110, 116], .PRINT) /- print -/,
+   ([98, 105, 110, 100], .BIND) /- bind -/,
+   ([116, 114, 117, 101], .TRUE) /- true -/,
+   ([102, 97, 108, 115, 101], .FALSE) /- false -/,
+   ([110, 105, 108], .NIL) /- nil -/,
+   ([110, 111, 116], .NOT) /- not -/,
+   ([97, 110, 100], .AND) /- and -/,
+   ([111, 114], .OR) /- or -/]
 
 def keywordOf (w : Bytes) : Option TokType :=
-  (keywordTable.find? (fun p => str p.1 == w)).map (·.2)
+  (keywordTable.find? (fun p => p.1 == w)).map (·.2)
 
 /-- `twoRuneTokens`: first rune ↦ (second rune, token). -/
 def twoRuneTable : List (Nat × Nat × TokType) :=
